@@ -17,7 +17,9 @@ def nontrivial(req, obs):
 
 PROP = {
     "id": "C18",
-    "lean_targets": ["WmModel.Props.C18"],
+    "lean_targets": ["WmModel.Props.C18", "WmModel.Props.C18Router", "WmModel.Props.C02Tie"],
+    # the settle effect of `command` is derived from the handleMessage model: its body is re-extracted and its tie re-proved here too
+    "extract_also": ["C02"],
     "audit_module": "Audit.C18",
     "theorems": [
         "Wm.ReqReply.replies_only_own", "Wm.ReqReply.operation_ids_distinct", "Wm.ReqReply.never_another_requests_reply",
@@ -30,8 +32,10 @@ PROP = {
         "Wm.ReqReply.listener_steps_bounded", "Wm.ReqReply.ctx_ended_stable", "Wm.ReqReply.finished_listener_is_good",
         "Wm.ReqReply.finished_calls", "Wm.ReqReply.listener_terminates", "Wm.ReqReply.closed_once_finished_once",
         "Wm.ReqReply.Old.listener_stuck_witness", "Wm.ReqReply.Old.listener_stuck_witness_one",
+        # the settle effect derived from the C02/C03 models (Props/C18Router.lean)
+        "Wm.ReqReply.command_settle_eq_handle",
     ],
-    "tie_theorems": [],
+    "tie_theorems": ["Wm.GoHandle.handle_skeleton_eq_model", "Wm.GoHandle.publish_skeleton_eq_model"],
     "harness": "c18",
     "race": True,
     "driver": "drv_c18",
